@@ -18,6 +18,7 @@ import (
 var lifeAlphabet = map[string]bool{
 	"StubCall": true, "CtxEnd": true, "StubRet": true, "CallServed": true, "CloseCall": true, "CloseReturned": true,
 	"SenderExit": true, "ReceiverExit": true, "Quiescent": true, "MustServe": true,
+	"HAccept": true, "SrvAccept": true, "MetadataExpected": true, "MetadataDone": true,
 }
 
 // cmdLife1 runs one lifecycle scenario in this process and writes its events.
